@@ -30,6 +30,9 @@ Compilation scheme (syntax-directed; nothing is "understood", nothing is optimis
   (then "the rows written so far" and "`v` with the first rows replaced" cannot be told apart);
 * `o or d`, where the profile types `o` as `Option T` and `d` as `T`, is `o.getD d` (an optional object that has no
   `__bool__` / `__len__`: it is false only when it is `None`); every other `and` / `or` is a truth-value operation;
+* `alias_locals` (`{"conjunction": "rule_block.conjunction"}`): a local that the patterns of the externals mention by
+  name stands for that expression; its one assignment must have exactly this right-hand side (otherwise the externals
+  would silently mean something else) and is not translated;
 * everything else (method calls on library objects, dictionary lookups, NumPy) must be named by an *external*
   rule of the profile: a Python expression pattern with holes `_0, _1, ...` and a Lean template.  The externals are
   the vocabulary the model is written in; their meaning is part of the trusted base and is listed in the output.
@@ -972,6 +975,12 @@ class Fn:
                         return after()
                     except KeyError as ex:
                         raise Untranslatable(f"'{t.id}' is declared constant but is not: {ast.unparse(s)}") from ex
+                if t.id in self.p.get("alias_locals", {}):
+                    # a local that the externals mention by name: it must be bound to exactly the expression the profile says
+                    want = self.p["alias_locals"][t.id]
+                    if ast.unparse(s.value) != want:
+                        raise Untranslatable(f"local '{t.id}' must be bound to `{want}`, found `{ast.unparse(s.value)}`")
+                    return after()
                 if t.id in self.p.get("ignore_locals", []):
                     return after()
                 if t.id in self.p.get("none_init", []) and isinstance(s.value, ast.Constant) and s.value.value is None:
